@@ -91,11 +91,14 @@ def run(ctx):
         meta.append([(f, int(lim.split()[1]) if lim.startswith("depth ") else None, sub)])
     # finite time / clock limits terminate on their own
     tl = []
-    for _ in range(24 if q else 300):
-        f = rng.choice(fens)
+    for _ in range(48 if q else 400):
+        f = rng.choice(calm)
         w = f.split()[1] == "w"
         lim = rng.choice(["movetime %d" % rng.choice([1, 5, 30, 60]), "%s %d %s 60000" % ("wtime" if w else "btime", rng.choice([1, 10, 100, 300]), "btime" if w else "wtime"),
-                          "nodes %d" % rng.choice([1, 1000, 20000])])
+                          "nodes %d" % rng.choice([1, 1000, 20000]),
+                          # a clock below zero (a GUI sends it after the flag fell) or a negative movetime is still a finite limit
+                          "%s %d %s 60000" % ("wtime" if w else "btime", rng.choice([-1, -4, -20, -350, -100000]), "btime" if w else "wtime"),
+                          "movetime %d" % rng.choice([-1, -5, -1000])])
         sessions.append(["go %s | | %s" % (f, lim)])
         meta.append([(f, None, None)])
         tl.append(lim)
